@@ -67,7 +67,18 @@ def main():
         name = sys.argv[2]; d = os.path.join(SEEDED, name)
         meta = json.load(open(os.path.join(d, "meta.json")))
         checks = sys.argv[3:] or [meta["property"]]
-        res = run_checks(os.path.join(d, "patch.diff"), checks)
+        if os.environ.get("VF_SEED_VIA_WORKTREE"):   # leave /repo alone: temporary worktree of HEAD with the patch applied
+            wt = "/tmp/vf_seedwt"
+            sh("git -C /repo worktree remove --force %s" % wt); shutil.rmtree(wt, ignore_errors=True)
+            rc, o = sh("git -C /repo worktree add --detach %s HEAD" % wt)
+            if rc: raise SystemExit(o)
+            shutil.copy("/repo/SRC/superlu_config.h", os.path.join(wt, "SRC/superlu_config.h"))
+            rc, o = sh("git apply %s" % os.path.join(d, "patch.diff"), cwd=wt)
+            if rc: sh("git -C /repo worktree remove --force %s" % wt); raise SystemExit("patch does not apply to HEAD: " + o)
+            try: res = run_checks(os.path.join(d, "patch.diff"), checks, worktree=wt)
+            finally: sh("git -C /repo worktree remove --force %s" % wt); shutil.rmtree(wt, ignore_errors=True)
+        else:
+            res = run_checks(os.path.join(d, "patch.diff"), checks)
         meta.setdefault("checks", {}).update(res); meta["checked_at_repo_commit"] = sh("git -C /repo rev-parse --short HEAD")[1].strip()
         json.dump(meta, open(os.path.join(d, "meta.json"), "w"), indent=1)
         return 0
@@ -85,11 +96,11 @@ def main():
     ok_suite = "100% tests passed" in o
     ran.append("with patch: cmake --build && ctest -> " + ("24/24 pass" if ok_suite else "FAILS: " + o[-300:]))
     # 3. demonstration with / without the patch
-    rc, o1 = sh("sh demo/build.sh >/dev/null 2>&1; ./demo/demo; echo EXIT=$?", cwd=wt)
+    rc, o1 = sh("bash demo/build.sh >/dev/null 2>&1; ./demo/demo; echo EXIT=$?", cwd=wt)
     fails_with = "EXIT=0" not in o1
     # (no git stash: the stash is shared between all worktrees of a repository)
     sh("git diff -- SRC CBLAS FORTRAN > /tmp/vf_seed_cur.diff; git apply -R /tmp/vf_seed_cur.diff", cwd=wt)
-    rc, o = sh("cmake --build _build 2>&1 | tail -1; sh demo/build.sh >/dev/null 2>&1; ./demo/demo; echo EXIT=$?", cwd=wt)
+    rc, o = sh("cmake --build _build 2>&1 | tail -1; bash demo/build.sh >/dev/null 2>&1; ./demo/demo; echo EXIT=$?", cwd=wt)
     passes_without = "EXIT=0" in o
     sh("git apply /tmp/vf_seed_cur.diff; rm -f /tmp/vf_seed_cur.diff", cwd=wt)
     ran.append("demo with patch -> %s; demo without patch -> %s" % ("fails" if fails_with else "PASSES (unexpected)", "passes" if passes_without else "FAILS (unexpected)"))
